@@ -35,3 +35,17 @@ PROPS["C07"] = dict(
     generators=[dict(name="C07", quick=60, thorough=4000)],
     harness=["impl"],
 )
+
+PROPS["C10"] = dict(
+    modules=["Proofs.C10"],
+    theorems=[],
+    generators=[dict(name="C10", quick=150, thorough=10000)],
+    harness=["impl"],
+)
+
+PROPS["C06"] = dict(
+    modules=["Proofs.C06"],
+    theorems=[],
+    generators=[dict(name="C06", quick=40, thorough=3000)],
+    harness=["impl"],
+)
